@@ -5,7 +5,15 @@ Mirrors /repo/tachys/src/view/keyed.rs **as it is**: `diff` / `group_adjacent_mo
 after the repair of finding F-C11-1 (/verif/hooks/fix-c11-1.patch: a moved item may skip its DOM move
 only if it does not overtake another item that keeps its place; grouping keeps the `move_in_dom` flag).
 The functions before the repair are kept as `diffOld` / `groupAdjacentMovesOld` / `rebuildOld`; the
-theorems about them (refutation witness, exact failure class) stay as regression theorems.
+theorems about them (refutation witness, exact failure class) stay as regression theorems. Likewise
+`KState.unmount` is the function after the repair of F-C11-2 (`unmount` forgets the parent) and
+`KState.unmountOld` the one before.
+
+A list state records whether it has a parent (`KState.parent`, Rust `parent: Option<Element>`): `build`
+leaves it `None`, `mount` sets it, `rebuild` updates the DOM only if it is set (`applyDiff`), otherwise
+only the stored items (`applyDiffDetached`). Items are blocks of ≥ 1 nodes of any kind (elements, text
+nodes, placeholders of `()` / `None` members, the nodes of a fragment or of a nested keyed list with
+its marker): `mount` / `unmount` / `insert_before_this` of such views act on the flat block.
 
 | here                         | Rust (tachys/src/view/keyed.rs unless noted)                               |
 |------------------------------|-----------------------------------------------------------------------------|
@@ -241,18 +249,18 @@ def unpackMoves (d : Diff) : List DiffOpMove × List DiffOpAdd :=
 
 /-! ## DOM: the parent's child list -/
 
-/-- insert `n` in front of the first occurrence of `r`; a reference that is not a child is an
-error in a real DOM — the model appends (never reached, see `Theorems/C11`) -/
+/-- insert `n` in front of the first occurrence of `r` (`insertBefore` checks that `r` occurs) -/
 def insBefore (r n : NodeId) : List NodeId → List NodeId
   | [] => [n]
   | x :: xs => if x == r then n :: x :: xs else x :: insBefore r n xs
 
-/-- `parent.insertBefore(n, ref)`: `n` is detached from its old position first -/
+/-- `parent.insertBefore(n, ref)`: `n` is detached from its old position first. A reference that is
+not a child of the parent is a `NotFoundError` (raised before anything is changed; tachys swallows
+it, `or_debug!`): nothing happens. -/
 def insertBefore (kids : List NodeId) (n : NodeId) (ref : Option NodeId) : List NodeId :=
-  let kids := kids.erase n
   match ref with
-  | none => kids ++ [n]
-  | some r => insBefore r n kids
+  | none => kids.erase n ++ [n]
+  | some r => if kids.contains r then insBefore r n (kids.erase n) else kids
 
 def removeNode (kids : List NodeId) (n : NodeId) : List NodeId := kids.erase n
 
@@ -397,6 +405,8 @@ structure KState where
   /-- block size of `view_fn`'s views -/
   bs : Nat
   w : World
+  /-- `parent.is_some()`: set by `mount` (and `hydrate`), read by `rebuild` -/
+  parent : Bool := true
   deriving Repr, Inhabited
 
 /-- the `for (index, item) in items.enumerate()` loop of `build` -/
@@ -410,31 +420,79 @@ def buildLoop (bs : Nat) : List Key → Nat → World → World
 `kids`/`next` of the incoming world are the parent's children so far and the id counter. -/
 def build (bs : Nat) (keys : List Key) (kids : List NodeId) (next : Nat) : KState :=
   let w := buildLoop bs keys 0 { kids := kids, storage := [], next := next }
-  { marker := w.next, hashed := keys, bs := bs, w := { w with next := w.next + 1 } }
+  { marker := w.next, hashed := keys, bs := bs, w := { w with next := w.next + 1 }, parent := false }
 
 /-- `KeyedState::mount(parent, marker)` -/
 def KState.mount (s : KState) (ref : Option NodeId) : KState :=
   let kids := (s.w.storage.filterMap id).foldl (fun ks it => mountItem ks it ref) s.w.kids
-  { s with w := { s.w with kids := insertBefore kids s.marker ref } }
+  { s with w := { s.w with kids := insertBefore kids s.marker ref }, parent := true }
 
-/-- `KeyedState::unmount` -/
+/-- `KeyedState::unmount` (after the repair of finding F-C11-2, /verif/hooks/fix-c11-2.patch: `unmount`
+forgets the parent, so a `rebuild` before the next `mount` only updates the stored items) -/
 def KState.unmount (s : KState) : KState :=
+  let w := (s.w.storage.filterMap id).foldl World.unmount s.w
+  { s with w := { w with kids := removeNode w.kids s.marker }, parent := false }
+
+/-- `KeyedState::unmount` BEFORE the repair of F-C11-2: the parent is kept, and a list that is rebuilt after
+`unmount` still tries to insert into its old parent, relative to a marker that is no longer there (every
+such `insertBefore` is a `NotFoundError`, swallowed by `or_debug!`) -/
+def KState.unmountOld (s : KState) : KState :=
   let w := (s.w.storage.filterMap id).foldl World.unmount s.w
   { s with w := { w with kids := removeNode w.kids s.marker } }
 
-/-- `KeyedState::insert_before_this(child)` with a one-node child -/
+/-- `KeyedState::insert_before_this(child)` with a one-node child: a node that has no parent (the list
+is not in the DOM) answers `false` -/
 def KState.insertBeforeThis (s : KState) (child : NodeId) : KState × Bool :=
   match s.w.storage.head? with
   | some (some it) =>
     match it.nodes.head? with
-    | some h => ({ s with w := { s.w with kids := insertBefore s.w.kids child (some h) } }, true)
+    | some h =>
+      if s.w.kids.contains h then
+        ({ s with w := { s.w with kids := insertBefore s.w.kids child (some h) } }, true)
+      else (s, false)
     | none => (s, false)
   | some none => (s, false)
-  | none => ({ s with w := { s.w with kids := insertBefore s.w.kids child (some s.marker) } }, true)
+  | none =>
+    if s.w.kids.contains s.marker then
+      ({ s with w := { s.w with kids := insertBefore s.w.kids child (some s.marker) } }, true)
+    else (s, false)
 
-/-- `Keyed::rebuild(state)` with the diff function as a parameter; the log is per call -/
+/-- second move-in loop when `parent` is `None`: `set_index(to); children[to] = Some(..)` only -/
+def moveInDomStepD (w : World) (mc : DiffOpMove × Option Item) : World :=
+  if !mc.1.moveInDom then w else
+  match mc.2 with
+  | some it => (w.setIndex it mc.1.to_).store mc.1.to_ (some it)
+  | none => w.panicked
+
+/-- additions loop when `parent` is `None`: build and store, no mount -/
+def addStepD (bs : Nat) (to : List Key) (w : World) (a : DiffOpAdd) : World :=
+  match to[a.at_]? with
+  | none => w.panicked
+  | some k =>
+    let (it, w) := buildItem bs w a.at_ k
+    w.store a.at_ (some it)
+
+/-- `apply_diff(parent = None, …)`: everything except the `if let Some(parent) = parent { … }` blocks
+(`unmount` is still called on removed items; it is a no-op on nodes that are in no parent) -/
+def applyDiffDetached (bs : Nat) (d : Diff) (to : List Key) (w : World) : World :=
+  let w := if d.clear then clearPhase w else w
+  if d.clear && d.added.isEmpty then w else
+  let w := d.removed.foldl removeStep w
+  let (moveCmds, addCmds) := unpackMoves d
+  let (w, movedChildren) := moveCmds.foldl moveOutStep (w, [])
+  let w := { w with storage := w.storage ++ List.replicate d.added.length none }
+  let mcs := moveCmds.zip movedChildren
+  let w := mcs.foldl moveInStorageStep w
+  let w := mcs.foldl moveInDomStepD w
+  let w := addCmds.foldl (addStepD bs to) w
+  { w with storage := w.storage.filter Option.isSome }
+
+/-- `Keyed::rebuild(state)` with the diff function as a parameter; the log is per call.
+`apply_diff(parent.as_ref(), …)`: with a parent the DOM is updated, without one only the storage -/
 def rebuildWith (D : List Key → List Key → Diff) (s : KState) (to : List Key) : KState :=
-  let w := applyDiff s.bs s.marker (D s.hashed to) to { s.w with log := {} }
+  let w :=
+    if s.parent then applyDiff s.bs s.marker (D s.hashed to) to { s.w with log := {} }
+    else applyDiffDetached s.bs (D s.hashed to) to { s.w with log := {} }
   { s with hashed := to, w := w }
 
 /-- `Keyed::rebuild(state)` -/
